@@ -36,12 +36,13 @@ HARNESSES = [
     _h("sess", "./internal/pppoe/", "sess"),
     _h("radius", "./plugins/auth/radius/", "radius"),
     _h("shm", "./pkg/dataplane/shm/", "shm"),
+    _h("local", "./plugins/dhcp4/local/", "local"),
 ]
 ROUTE = {
     "disp": "disp",
     "ppphdr": "ppp", "pppopts": "ppp", "papreq": "ppp", "papmsg": "ppp", "chapchal": "ppp", "chapresp": "ppp", "echo": "ppp",
     "rtopts": "ppp", "papbld": "ppp", "chapbld": "ppp",
-    "tags": "tags", "bldtags": "tags", "bldavp": "l2tp", "bldl2": "l2tp", "bldrelay": "relay", "bld82": "relay", "bldd6": "dhcp6",
+    "tags": "tags", "bldtags": "tags", "bldavp": "l2tp", "bldl2": "l2tp", "bldrelay": "relay", "bld82": "relay", "bldd6": "dhcp6", "bldd4": "local",
     "l2hdr": "l2tp", "l2avp": "l2tp", "l2v3": "l2tp",
     "d6msg": "dhcp6", "d6relay": "dhcp6", "d6reply": "dhcp6",
     "o82ins": "relay", "o82strip": "relay", "setopt": "relay", "getopt": "relay", "v6unwrap": "relay", "v6txid": "relay",
@@ -684,6 +685,10 @@ def gen_cases(rng, tier, budget):
         bs = [rb(rng, 3), rb(rng, rng.choice([0, 10, 14])), rb(rng, rng.choice([0, 10, 14])), rb(rng, 16), rb(rng, 16),
               rb(rng, rng.choice([0, 5, 30]))] + [rb(rng, 16) for _ in range(nd)] + [rb(rng, rng.choice([0, 1, 9])) for _ in excodes]
         add(case("bldd6", nums, *bs))
+        codes = [rng.choice([54, 51, 1, 3, 6, 6, 12, 61, 82, 50, 121, 43, rng.randrange(1, 255)]) for _ in range(rng.randint(0, 6))]
+        vals = [rb(rng, rng.choice([4, 4, 8, 1, 0, 12, 255, 256, 300, 600] if rng.random() < 0.2 else [4, 4, 8, 1, 0, 12])) for _ in codes]
+        add(case("bldd4", [rng.randrange(1 << 32), rng.choice([2, 5, 6])] + codes, rb(rng, 4), rb(rng, 4), rb(rng, 4),
+                 rb(rng, rng.choice([6, 6, 6, 16, 0])), *vals))
         nob = lambda n: bytes(x for x in rb(rng, n) if x != 0x7b) or b"x"
         add(case("bld82", [rng.randrange(2), rng.randrange(2)], nob(rng.choice([1, 5, 30, 100])), nob(rng.choice([1, 6, 17, 100]))))
     # --- backlog / wedge scenarios: bursts against the bounded worker pools and hand-off queues -------------
